@@ -19,7 +19,7 @@ HERE = os.path.dirname(os.path.abspath(__file__))
 EXPECTED = os.path.join(HERE, "skeleton.expected.json")
 
 TARGETS = {
-    "passage-protocol/src/connection.rs": ["receive_packet", "send_packet", "flush_unsent", "disconnect_missed_keep_alive", "check_keep_alive", "handle_keep_alive", "keep_alive", "apply_encryption", "listen"],
+    "passage-protocol/src/connection.rs": ["peek_varint", "inbound_frame", "fill_inbound", "receive_packet", "send_packet", "flush_unsent", "disconnect_missed_keep_alive", "check_keep_alive", "handle_keep_alive", "keep_alive", "apply_encryption", "listen"],
     "passage-protocol/src/listener.rs": ["listen", "handle"],
     "passage-protocol/src/rate_limiter.rs": ["enqueue"],
     "passage-protocol/src/cookie.rs": ["sign", "verify"],
